@@ -34,6 +34,9 @@ PROPS["C18"] = dict(
              consts=dict(MaxNodes=4, MaxEdges={"quick": 6, "thorough": 16}, Ordered="FALSE", Extra="")),
         dict(name="graphs5", kind="gen", module="Graph.tla", cfg="Graph_gen.cfg", tiers=["thorough"],
              consts=dict(MaxNodes=5, MaxEdges=6, Ordered="FALSE", Extra="")),
+dict(name="algorithms", kind="mc", module="Graph.tla", cfg="Graph_alg.cfg",
+             consts=dict(MaxNodes=4, MaxEdges={"quick": 6, "thorough": 16}, Ordered="FALSE"),
+             note="algorithm layer of Graph.tla (Cooper-Harvey-Kennedy dominators, the DomFrontier walk, Tarjan's SCC as the library runs them) agrees with the definitions on every enumerated graph"),
         dict(name="sub3", kind="gen", family="sub", module="Graph.tla", cfg="Graph_sub.cfg",
              consts=dict(MaxNodes=3, MaxEdges={"quick": 4, "thorough": 5}, Ordered="TRUE")),
         dict(name="sub4", kind="gen", family="sub", module="Graph.tla", cfg="Graph_sub.cfg",
@@ -64,6 +67,10 @@ PROPS["C19"] = dict(
              consts=dict(MaxNodes=5, MaxEdges=6, Ordered="FALSE", Extra="")),
     ],
 )
+PROPS["C19"]["stages"].append(
+    dict(name="algorithms", kind="mc", module="Graph.tla", cfg="Graph_alg.cfg",
+             consts=dict(MaxNodes=4, MaxEdges={"quick": 6, "thorough": 16}, Ordered="FALSE"),
+             note="algorithm layer of Graph.tla (Cooper-Harvey-Kennedy dominators, the DomFrontier walk, Tarjan's SCC as the library runs them) agrees with the definitions on every enumerated graph"))
 PROPS["C19"]["stages"].append(
     dict(name="graph_trace", kind="trace", family="graphrec", module="GraphTrace.tla", cfg="GraphTrace.cfg",
          record_args={"quick": ["-n", 300, "-max", 40, "-ops", "dom"], "thorough": ["-n", 5000, "-max", 40, "-ops", "dom"]}))
